@@ -206,6 +206,46 @@ CHECKS['C14'] = dict(
     technique='input-space TLA+ model enumerated exhaustively by TLC, every state replayed into the implementation; lazy-iterator state machines with pull traces; frame-stack model',
     design_ref='DESIGN.md sections 3.6, 5 (C14); notes/C14.md', engine='tlc-builtins')
 
+CHECKS['C09'] = dict(
+    text='spec/FnEnv.tla models function objects (code, globals dict id, closure cells by name, default / keyword-only default '
+         'object ids, parameter list) over a heap of cells, default objects and one module dictionary, Instantiate transcribed '
+         'from _PythonFnFactory.instantiate, CPython argument binding, and the actions Convert / Call(side, binding) / Rebind / '
+         'ReadBack / MutateDefault / RebindGlobal on f, g = to_graph(f), the convert() wrapper and a sibling closure. TLC checks '
+         'Agree, AgreeCalls, NoCrossTalk and SideEffectsOnce on the model and enumerates every signature shape of the bounded '
+         'universe x every call binding, every closure shape x entity kind x action sequences, plus seeded random behaviours '
+         '(TLC -generate); each behaviour is rendered to real source, converted by the real malt and stepped on the real objects, '
+         'comparing after every step outcome, inspect.signature, identity of defaults / globals / cells by name, heap contents '
+         'and a probe call with what TLC printed.',
+    note='Trusted: the renderer (checked indirectly: every behaviour is first replayed on the unconverted function and must match '
+         'the specification, else exit 2); CPython 3.12. Bounds: <=2+2+2 parameters, <=3 free variables, <=3 keywords per call, '
+         'two instances per code object, depth <=5. Excluded: annotations, __class__ cells, generators.',
+    technique='TLA+ state machine of function environments; TLC BFS and -generate behaviours replayed on the real (f, to_graph(f), convert()(f)) with a CPython twin run as model validation',
+    design_ref='DESIGN.md sections 3.5 (FnEnv), 5 (C09); notes/C09.md', engine='tlc-fnenv')
+CHECKS['C13'] = dict(
+    text='spec/CallPolicy.tla: converted_call as an ordered decision chain (19 actions) with the negative cache and the conversion '
+         'cache as state; a behaviour is a two-call history. TLC checks 13 property invariants on the model exhaustively for 52 '
+         'callable kinds x partial chains (depth <=2) x 12 argument shapes x 6 option values x 3 contexts x strict mode x 20 '
+         'fault points within tier bounds; every terminal state is replayed through the real converted_call with fresh callables '
+         '(9.9k / 91k histories, 1.3k / 9.4k of them through really converted call sites), observing result, exactly-once '
+         'invocation, receiver identity, operators firing in the callee, conversion attempts, warnings, allow-list cache and '
+         'unchanged partial objects. The direct call is checked against the spec\'s predicted binding first (exit 2).',
+    note='Trusted: the table Kinds (what the chain can observe of each kind) and its realisation in vf/c13_callables.py; faults '
+         'are exceptions raised by wrapped pipeline functions; arguments are symbolic tokens; un-weakref-able callables are '
+         'excluded from "remembered".',
+    technique='TLA+ decision-chain state machine, exhaustive enumeration, one implementation test per state, fault injection, CPython model validation',
+    design_ref='DESIGN.md sections 3.5 (CallPolicy), 5 (C13); notes/C13.md', engine='tlc-callpolicy')
+CHECKS['C16'] = dict(
+    text='spec/CtxStack.tla model-checked exhaustively (2 threads interleaved; 28 wrapper kinds; call trees to depth 4 with a raise '
+         'at any node and a catch at any ancestor; invariants StackShape, Restored, RegionStatus, Quiescent and the action '
+         'property Isolation); every enumerated single-thread behaviour and seeded deeper samples are replayed into the real '
+         'wrappers (convert, do_not_convert, internal convert with each status, call_with_unspecified_conversion_status, '
+         'recursive and user-requested conversions) with probe-by-probe comparison of context identity and status; logs of '
+         '1-16 real threads (deterministically scheduled and free-running) are validated by TLC against spec/TraceCtxStack.tla.',
+    note='Trusted: Python with-statement semantics, the probe body vf/c16_body.py, atomicity of next(itertools.count()). '
+         'Bounded: depth <=4 exhaustive / <=6 sampled, <=16 threads; schedules are sampled on the implementation side.',
+    technique='TLA+ state machine + TLC BFS/simulate replay into the real wrappers + TLC trace validation of multi-threaded runs',
+    design_ref='DESIGN.md sections 3.5 (CtxStack), 5 (C16); notes/C16.md', engine='tlc-ctxstack')
+
 NOT_CLAIMED = {}
 
 
